@@ -425,6 +425,11 @@ def run_check(pid, tier, verif_seed):
             new_by_sig.setdefault(sig, []).append((x, v))
     for sig, (kf, cnt) in sorted(known_hits.items()):
         print("KNOWN-FINDING: property=%s %s [%s] (%d runs)" % (pid, kf.get("description", ""), sig, cnt))
+    if os.environ.get("VERIF_KNOWN_HITS_FILE"):
+        # development aid: which listed findings were actually hit (to keep the list free of stale entries)
+        with open(os.environ["VERIF_KNOWN_HITS_FILE"], "a") as f:
+            for sig, (kf, cnt) in sorted(known_hits.items()):
+                f.write("%s\t%s\t%s\t%d\t%s\n" % (pid, tier, verif_seed, cnt, sig))
 
     replays = []
     exit_code = 0
